@@ -1285,6 +1285,13 @@ impl Exec {
         if pts.iter().any(|v| !v.is_finite()) {
             return;
         }
+        // one probe in eight starts from a point with a non-finite coordinate (what a misbehaving
+        // backend hands to the repair): whatever comes back must still be a point of the polytope
+        if self.probe_rng.chance(1, 8) {
+            let c = self.probe_rng.below(n_pts);
+            let j = self.probe_rng.below(in_dim);
+            pts[[j, c]] = *self.probe_rng.pick(&[f64::NAN, f64::INFINITY, f64::NEG_INFINITY]);
+        }
         let iters = *self.probe_rng.pick(&[1usize, 2, 8, 20]);
         let res = guarded(|| AffTree::<2>::mirror_points(&poly, &pts, iters));
         self.stats.mirror_probes += 1;
